@@ -27,6 +27,6 @@ func TestDebugReplay(t *testing.T) {
 	r, _ := refRun(&pc.Case)
 	sim.DebugLog = true
 	defer func() { sim.DebugLog = false }()
-	out := sim.Run(pc.Cfg, pc.Case.Prog.Text(), pc.Case.Init(), 20000, nil)
+	out := sim.Run(pc.Cfg, pc.Case.Prog.Text(), pc.Case.Init(), 60000, nil)
 	t.Logf("outcome %s %s\n%s", out.Kind, sim.Diff(out, r), out.Stack)
 }
